@@ -20,17 +20,10 @@ Definition xstep_sim_at (t : tabs) (s : spec) (a : tarrs) (o : xop) : Prop :=
   (sres_fault (snd sr) = false -> rt_rel t' (fst sr) (fst xr)).
 
 (* ---------- the index ---------- *)
-Lemma ta_index_clamp : forall idx len, len <> 0 -> is_pos_inf idx = false -> ta_index idx len = clamp_index idx len.
+Lemma ta_index_clamp : forall idx len, len <> 0 -> ta_index idx len = clamp_index idx len.
 Proof.
-  intros idx len Hl Hp. unfold ta_index, clamp_index. destruct (N.eqb_spec len 0); [contradiction|].
-  assert (Hhi : Z.of_N (len - 1) = (Z.of_N len - 1)%Z) by lia. rewrite Hhi.
-  unfold f64_is_finite. rewrite negb_involutive. destruct (f64_exp idx =? 2047) eqn:Ee; [|reflexivity].
-  unfold is_pos_inf, f64_is_inf in Hp. rewrite Ee in Hp. cbn [andb] in Hp.
-  unfold f64_to_i64, f64_is_nan, f64_mag, f64_is_inf. rewrite Ee. cbn [andb].
-  destruct (f64_frac idx =? 0) eqn:Ef; cbn [negb andb] in *.
-  - (* an infinity: negative by hypothesis *)
-    destruct (f64_sign idx); [|discriminate]. unfold clampZ, U64_MAX, I64_MIN. lia.
-  - (* NaN *) unfold clampZ. lia.
+  intros idx len Hl. unfold ta_index, clamp_index. destruct (N.eqb_spec len 0); [contradiction|].
+  assert (Hhi : Z.of_N (len - 1) = (Z.of_N len - 1)%Z) by lia. rewrite Hhi. reflexivity.
 Qed.
 
 Lemma clamp_index_lt : forall idx len, len <> 0 -> clamp_index idx len < len.
@@ -72,7 +65,7 @@ Ltac unpack_pre H :=
 
 Lemma rt_step_sim : forall t s a o, rt_rel t s a -> rt_pre s o = true -> xstep_sim_at t s a o.
 Proof.
-  intros t s a o [HR Hh] Hpre. pose proof HR as [Hl Ht Hi Hs].
+  intros t s a o [HR Hh] Hpre. pose proof HR as [Hl Ht Hi Hs Hz].
   assert (Hla : length a = length (sp_arrs s)) by (rewrite Hi, map_length; reflexivity).
   destruct o as [o|ew elem av|ew av elem|ew av|ew av]; unfold rt_pre in Hpre.
   - (* the contract's own operations *)
@@ -94,7 +87,7 @@ Proof.
         -- intros _. constructor; cbn [sp_arrs sp_heap with_arrs add_arr t_heap]; [|exact Hh].
            apply tarr_rel_alloc; auto. rewrite Hh, Hl. exact Hwf.
     + (* OArrayGet *)
-      unpack_pre Hx. apply negb_true_iff in Hp. apply negb_true_iff, N.eqb_neq in Hp0.
+      unpack_pre Hx. apply negb_true_iff, N.eqb_neq in Hp. pose proof Hp as Hp0.
       destruct (resolve_arr_arg t _ _ Hwf) as (k & -> & Hk & Hres).
       unfold arr_esz_ok in Hx. rewrite arr_get_spec in Hx by exact Hk. apply N.eqb_eq in Hx. subst esz.
       unfold xstep_sim_at; cbn zeta; cbn [xspec_step spec_step tpl_step]. rewrite arr_get_spec by exact Hk.
@@ -119,7 +112,7 @@ Proof.
         -- intros _. constructor; auto.
     + (* OArraySet *)
       apply andb_true_iff in Hwf. destruct Hwf as [Hwf Hsrc].
-      unpack_pre Hx. apply N.eqb_eq in Hp. apply negb_true_iff in Hp0. apply negb_true_iff, N.eqb_neq in Hp1.
+      unpack_pre Hx. apply N.eqb_eq in Hp. apply negb_true_iff, N.eqb_neq in Hp0. pose proof Hp0 as Hp1.
       destruct (resolve_arr_arg t _ _ Hwf) as (k & -> & Hk & Hres).
       unfold arr_esz_ok in Hx. rewrite arr_get_spec in Hx by exact Hk. apply N.eqb_eq in Hx. subst esz.
       unfold xstep_sim_at; cbn zeta; cbn [xspec_step spec_step tpl_step]. rewrite arr_get_spec by exact Hk.
@@ -149,11 +142,12 @@ Proof.
           exact (nth_arr_scoped _ _ _ k Hs).
     + (* OArrayLen *)
       destruct (resolve_arr_arg t _ _ Hwf) as (k & -> & Hk & Hres).
-      rewrite arr_get_spec in Hx by exact Hk. apply N.eqb_eq in Hx.
       unfold xstep_sim_at; cbn zeta; cbn [xspec_step spec_step tpl_step]. rewrite arr_get_spec by exact Hk.
       rewrite Hres, (Ht k Hk). unfold bi_len. rewrite tid_nz, (ta_get_rel t _ a k HR Hk).
-      rewrite Hx. cbn [N.eqb Pos.eqb fst snd xtabs_after ires_words]. rewrite tabs_after_nonalloc by reflexivity.
-      unfold nlen. cbn [timg ta_data]. rewrite map_length, N.div_1_r.
+      pose proof (nth_esz_nz _ k Hz Hk) as Hnz. set (ar := nth k (sp_arrs s) dummy_arr) in *.
+      unfold ta_len_elems, nlen. cbn [timg ta_esz ta_data]. rewrite map_length.
+      destruct (N.eqb_spec (sa_esz ar) 0) as [E0|_]; [contradiction|].
+      cbn [fst snd xtabs_after ires_words]. rewrite tabs_after_nonalloc by reflexivity.
       cbn [sres_fault ires_fault res_rel map resolve]. split; [apply ext_refl|]. split; [intros; reflexivity|]. split; [reflexivity|].
       intros _. constructor; auto.
   - (* prepend *)
